@@ -6,7 +6,7 @@ From V Require Import gen.K_client gen.C_client gen.C_rpc gen.C_gkdi gen.K_onlin
 From V Require Import Model.Pdu Model.Request Model.Bind Model.Verification Model.Epm.
 From V Require Import Model.Handshake Model.Framing Model.Seal Model.Recv.
 From V Require Import Model.Types Model.Gkdi Model.Conversation Spec.GkdiLayout.
-From V Require Import Proofs.GkdiLib Proofs.GkdiGetKey Proofs.GkdiEnvelope Proofs.C13 Proofs.C16 Proofs.C17Consts.
+From V Require Import Proofs.GkdiLib Proofs.GkdiGetKey Proofs.GkdiEnvelope Proofs.C13 Proofs.C15 Proofs.C16 Proofs.C17Consts.
 
 (* the kernels that carry the arguments are identities *)
 Lemma getkey_of_eq f sd rk l0 l1 l2 :
@@ -416,4 +416,53 @@ Proof.
   destruct (send_request wrap None (sign s) c_onl_epm_ctx_id c_onl_ept_map_opnum c_onl_ept_map_stub None) as [sr|e] eqn:Es; [|discriminate].
   assert (sr = (wire, oargs)) by congruence. subst sr.
   exact (send_request_anon_inv _ _ _ _ _ _ _ Es).
+Qed.
+
+(* the presentation contexts offered: the first connection binds exactly _EPM_CONTEXTS anonymously; the second connection's Bind
+   offers exactly _ISD_KEY_CONTEXTS, carries the provider's first token in a PKT_PRIVACY trailer and offers header signing; what
+   follows on that connection are AlterContext PDUs *)
+Lemma offered_contexts pv tok :
+  b_contexts (bind_pdu_of_sent pv epm_contexts (SBind 0 None (context_ids epm_contexts))) = epm_contexts /\
+  b_contexts (bind_pdu_of_sent pv isd_key_contexts (SBind 4 (Some tok) (context_ids isd_key_contexts))) = isd_key_contexts /\
+  b_sec_trailer (bind_pdu_of_sent pv isd_key_contexts (SBind 4 (Some tok) (context_ids isd_key_contexts)))
+    = Some {| st_type := pv_type pv; st_level := 6; st_pad_length := 0; st_context_id := 0; st_auth_value := tok |} /\
+  h_packet_flags (b_header (bind_pdu_of_sent pv isd_key_contexts (SBind 4 (Some tok) (context_ids isd_key_contexts)))) = 7 /\
+  h_packet_flags (b_header (bind_pdu_of_sent pv epm_contexts (SBind 0 None (context_ids epm_contexts)))) = 3.
+Proof. repeat split. Qed.
+
+Lemma conversation_binds (wrap : wrap_fn) (unwrap : unwrap_fn) pv f legs dc sd rk l0 l1 l2 r t :
+  get_key_conversation f wrap unwrap pv legs dc sd rk l0 l1 l2 = (r, t) ->
+  tr_epm_binds t = [bind_pdu_of_sent pv epm_contexts (SBind 0 None (context_ids epm_contexts))] /\
+  forall p l ls, tr_port t = Some p -> legs = l :: ls ->
+    exists alters, Forall is_alter alters /\
+      tr_isd_binds t = bind_pdu_of_sent pv isd_key_contexts (SBind 4 (Some (leg_token l)) (context_ids isd_key_contexts))
+                       :: map (bind_pdu_of_sent pv isd_key_contexts) alters.
+Proof.
+  unfold get_key_conversation. intros H.
+  destruct (bind_run false [] (ds_epm_srv dc) (context_ids epm_contexts)) as [rb s] eqn:Eb.
+  destruct (anonymous _ _ _ _ _ Eb) as (Htr & _).
+  set (t1 := tr_epm tr0 (map (bind_pdu_of_sent pv epm_contexts) (trace s))) in *.
+  assert (H1 : tr_epm_binds t1 = [bind_pdu_of_sent pv epm_contexts (SBind 0 None (context_ids epm_contexts))] /\ tr_port t1 = None)
+    by (unfold t1; rewrite Htr; split; reflexivity).
+  destruct rb as [results|e].
+  2:{ apply (f_equal snd) in H. cbn [snd] in H. subst t. destruct H1 as [H1 H2]. split; [exact H1|]. intros p l ls Hp. congruence. }
+  destruct (process_bind_result _ results c_onl_epm_ctx_id) as [u|e].
+  2:{ apply (f_equal snd) in H. cbn [snd] in H. subst t. destruct H1 as [H1 H2]. split; [exact H1|]. intros p l ls Hp. congruence. }
+  destruct (rpc_request f wrap unwrap None (sign s) _ c_onl_ept_map_opnum c_onl_ept_map_stub None (ds_ept_stream dc) (ds_sched dc)) as [sent_req resp].
+  destruct resp as [rsp|e].
+  2:{ apply (f_equal snd) in H. cbn [snd] in H. subst t. destruct H1 as [H1 H2]. split; [exact H1|]. intros p l ls Hp. cbn [tr_port tr_ept] in Hp. congruence. }
+  destruct (process_ept_map_result _ (rs_stub_data rsp)) as [[port ticks]|e].
+  2:{ apply (f_equal snd) in H. cbn [snd] in H. subst t. destruct H1 as [H1 H2]. split; [exact H1|]. intros p l ls Hp. cbn [tr_port tr_ept] in Hp. congruence. }
+  unfold isd_key_phase in H.
+  destruct (bind_run true legs (ds_isd_srv dc) (context_ids isd_key_contexts)) as [rb2 s2] eqn:Eb2.
+  set (t2 := tr_isd _ _ _ _) in H.
+  assert (H2 : tr_epm_binds t = tr_epm_binds t1 /\ tr_isd_binds t = map (bind_pdu_of_sent pv isd_key_contexts) (trace s2)).
+  { destruct rb2 as [results2|e]; [|apply (f_equal snd) in H; cbn [snd] in H; subst t; split; reflexivity].
+    destruct (process_bind_result _ results2 c_onl_isd_ctx_id) as [u2|e]; [|apply (f_equal snd) in H; cbn [snd] in H; subst t; split; reflexivity].
+    destruct (isd_request _ _ _ _ _ _ _ _) as [sr2 resp2].
+    destruct resp2; apply (f_equal snd) in H; cbn [snd] in H; subst t; split; reflexivity. }
+  destruct H2 as [H2a H2b]. destruct H1 as [H1 _]. split; [congruence|].
+  intros p l ls _ Hl. subst legs.
+  destruct (tokens_out _ _ _ _ _ _ Eb2) as (alters & n & Htr2 & _ & Hal & _).
+  exists alters. split; [exact Hal|]. rewrite H2b, Htr2. reflexivity.
 Qed.
